@@ -81,12 +81,10 @@ Proof.
   intros (Hdf & (B1 & B2 & B3 & B4) & Hcl & HK). destruct k; cbn [arg_act dstep].
   - (* ANull *)
     destruct (caller_buf d) as [c|] eqn:Ec.
-    + rewrite (heap_free_live d c (Hcl c eq_refl)). unfold set_caller. cbn.
-      repeat split; auto; try discriminate.
-      * intros x Hx. apply B1. eapply zmem_zremove_sub. exact Hx.
-      * intros c0 H. discriminate.
+    + rewrite (heap_free_live d c (Hcl c Ec)). unfold set_caller. cbn.
+      repeat split; auto; try discriminate;
+        try (intros x Hx; apply B1; eapply zmem_zremove_sub; exact Hx).
     + cbn. unfold set_caller. cbn. repeat split; auto; try discriminate.
-      intros c0 H. discriminate.
   - (* AFresh *)
     unfold heap_alloc. cbn [fst snd].
     set (b := next_buf d).
@@ -95,21 +93,22 @@ Proof.
                                mkdest (d_newbuffer d) (d_buffer d) (d_alloc d) l' (b + 1) (caller_buf d) (d_doublefree d) /\
                                zmem b l' = true /\ (forall x, zmem x l' = true -> x < b + 1)).
     { destruct (caller_buf d) as [c|] eqn:Ec.
-      - assert (Hc : zmem c (live d1) = true) by (cbn; rewrite (Hcl c eq_refl); apply orb_true_r).
-        rewrite (heap_free_live d1 c Hc). cbn. eexists. split; [reflexivity|]. split.
-        + assert (c <> b) by (specialize (B4 c eq_refl); unfold b; lia).
-          destruct (Z.eqb b c) eqn:E; [apply Z.eqb_eq in E; congruence|]. cbn. rewrite Z.eqb_refl. reflexivity.
-        + intros x Hx. apply zmem_zremove_sub in Hx. cbn in Hx. apply orb_true_iff in Hx.
+      - assert (Hc : zmem c (live d1) = true) by (cbn; rewrite (Hcl c Ec); apply orb_true_r).
+        rewrite (heap_free_live d1 c Hc). unfold d1. cbn [d_newbuffer d_buffer d_alloc live next_buf caller_buf d_doublefree].
+        try rewrite Ec. eexists. split; [reflexivity|]. split.
+        + assert (b <> c) by (specialize (B4 c eq_refl); unfold b; lia).
+          rewrite zmem_zremove_other by assumption. cbn [zmem]. rewrite Z.eqb_refl. reflexivity.
+        + intros x Hx. apply zmem_zremove_sub in Hx. cbn [zmem] in Hx. apply orb_true_iff in Hx.
           destruct Hx as [Hx|Hx]; [apply Z.eqb_eq in Hx; lia | specialize (B1 x Hx); unfold b; lia].
       - cbn. eexists. split; [reflexivity|]. split; [cbn; rewrite Z.eqb_refl; reflexivity|].
         intros x Hx. cbn in Hx. apply orb_true_iff in Hx.
         destruct Hx as [Hx|Hx]; [apply Z.eqb_eq in Hx; lia | specialize (B1 x Hx); unfold b; lia]. }
     destruct Hfree as (l' & Hf & Hb & Hbound). fold b. fold d1. rewrite Hf. unfold set_caller. cbn.
-    repeat split; auto.
+    repeat split; cbn; auto.
     + intros x Hx. specialize (B2 x Hx). unfold b. lia.
     + intros x Hx. specialize (B3 x Hx). unfold b. lia.
     + intros x Hx. inversion Hx. lia.
-    + intros c Hc. inversion Hc. subst. exact Hb.
+    + unfold caller_live. cbn. intros c Hc. inversion Hc. subst. exact Hb.
     + intros _ c Hc Hbuf. inversion Hc. subst. specialize (B3 _ Hbuf). unfold b in B3. lia.
   - (* AReuse *)
     cbn. repeat split; auto. intro H. discriminate.
@@ -134,13 +133,13 @@ Proof.
     split; [|split; [|reflexivity]].
     + unfold G, bnd, Kinv, Ninv, Ainv, caller_live. cbn. rewrite Ec. repeat split; auto.
       * intros x Hx. specialize (HN x Hx). subst. apply B4. reflexivity.
-      * intros x Hx. inversion Hx. subst. apply B4. reflexivity.
       * destruct reused; [|left; reflexivity].
         destruct (d_newbuffer d) as [b|] eqn:En; [|left; reflexivity].
         right. rewrite (HN b eq_refl). reflexivity.
-      * intros b Hb. rewrite (HN b Hb). apply Hcl. reflexivity.
-      * intros _. exists c. split; [reflexivity | apply Hcl; reflexivity].
-    + unfold caller_live. cbn. rewrite Ec. exact Hcl.
+      * intros b Hb. rewrite (HN b Hb). apply Hcl. exact Ec.
+      * intros _. exists c. split; [reflexivity | apply Hcl; exact Ec].
+      * intros _ c0 Hc0. inversion Hc0. subst. apply Hcl. exact Ec.
+    + unfold caller_live. cbn. try rewrite Ec. intros c0 Hc0. inversion Hc0. subst. apply Hcl. exact Ec.
   - (* *jpegBuf == NULL *)
     cbn [andb]. destruct al.
     + unfold heap_alloc, set_dest, set_caller. cbn.
@@ -167,23 +166,24 @@ Proof.
   destruct (d_alloc d) eqn:Ea; [|subst al; split; [repeat split; auto; congruence | assumption]].
   unfold heap_alloc. cbn [fst snd].
   set (b := next_buf d).
-  set (d1 := mkdest (d_newbuffer d) (d_buffer d) true (b :: live d) (b + 1) (caller_buf d) (d_doublefree d)).
+  set (d1 := mkdest (d_newbuffer d) (d_buffer d) (d_alloc d) (b :: live d) (b + 1) (caller_buf d) (d_doublefree d)).
   assert (Hfree : exists l', heap_free d1 (d_newbuffer d) =
-                             mkdest (d_newbuffer d) (d_buffer d) true l' (b + 1) (caller_buf d) (d_doublefree d) /\
+                             mkdest (d_newbuffer d) (d_buffer d) (d_alloc d) l' (b + 1) (caller_buf d) (d_doublefree d) /\
                              zmem b l' = true /\ (forall x, zmem x l' = true -> x < b + 1)).
   { destruct (d_newbuffer d) as [x|] eqn:En.
-    - assert (Hx : zmem x (live d1) = true) by (cbn; rewrite (HN x eq_refl); apply orb_true_r).
-      rewrite (heap_free_live d1 x Hx). cbn. rewrite En. eexists. split; [reflexivity|]. split.
-      + assert (x <> b) by (specialize (B2 x eq_refl); unfold b; lia).
-        destruct (Z.eqb b x) eqn:E; [apply Z.eqb_eq in E; congruence|]. cbn. rewrite Z.eqb_refl. reflexivity.
-      + intros y Hy. apply zmem_zremove_sub in Hy. cbn in Hy. apply orb_true_iff in Hy.
+    - assert (Hx : zmem x (live d1) = true) by (cbn; rewrite (HN x En); apply orb_true_r).
+      rewrite (heap_free_live d1 x Hx). unfold d1. cbn [d_newbuffer d_buffer d_alloc live next_buf caller_buf d_doublefree].
+      try rewrite En. eexists. split; [reflexivity|]. split.
+      + assert (b <> x) by (specialize (B2 x eq_refl); unfold b; lia).
+        rewrite zmem_zremove_other by assumption. cbn [zmem]. rewrite Z.eqb_refl. reflexivity.
+      + intros y Hy. apply zmem_zremove_sub in Hy. cbn [zmem] in Hy. apply orb_true_iff in Hy.
         destruct Hy as [Hy|Hy]; [apply Z.eqb_eq in Hy; lia | specialize (B1 y Hy); unfold b; lia].
     - cbn. eexists. split; [reflexivity|]. split; [cbn; rewrite Z.eqb_refl; reflexivity|].
       intros y Hy. cbn in Hy. apply orb_true_iff in Hy.
       destruct Hy as [Hy|Hy]; [apply Z.eqb_eq in Hy; lia | specialize (B1 y Hy); unfold b; lia]. }
   destruct Hfree as (l' & Hf & Hb & Hbound). fold b. fold d1. rewrite Hf. unfold set_dest. cbn.
-  split; [|symmetry; exact Hal].
-  unfold G, bnd, Kinv, Ninv, Ainv, caller_live. cbn. repeat split; auto.
+  split; [|first [exact Hal | symmetry; exact Hal]].
+  unfold G, bnd, Kinv, Ninv, Ainv, caller_live. cbn. repeat split; cbn; auto.
   - intros x Hx. inversion Hx. lia.
   - intros x Hx. inversion Hx. lia.
   - intros x Hx. specialize (B4 x Hx). unfold b. lia.
@@ -204,7 +204,7 @@ Lemma term_step d al : G d -> d_alloc d = al -> J (dstep DTerm al d).
 Proof.
   intros (Hdf & (B1 & B2 & B3 & B4) & HK & HN & HA & HC) Hal. cbn [dstep].
   destruct (d_alloc d) eqn:Ea.
-  - destruct (HA eq_refl) as (b & Hb & Hlive). unfold set_caller. unfold J, bnd, caller_live, Kinv. cbn.
+  - destruct (HA Ea) as (b & Hb & Hlive). unfold set_caller. unfold J, bnd, caller_live, Kinv. cbn.
     repeat split; auto. intros c Hc. rewrite Hb in Hc. inversion Hc. subst. exact Hlive.
   - unfold J. repeat split; auto.
 Qed.
